@@ -27,6 +27,8 @@ func init() {
 			{ID: "C07.R10", Floor: 2, Run: indicesNilOrComplete, Text: "the lazily built position index of a cache entry is nil or complete: a fresh map is stored into cacheEntry.Indices only by a function that also fills it for every table of the entry's list"},
 			{ID: "C07.R11", Floor: 1, Run: c07r11, Text: "no write through a pointer to a slice element after that element was overwritten as a whole (swap-remove of cache entries); fixture-backed"},
 			{ID: "C07.R12", Floor: 2, Run: pointerAssertedFilters, Text: "pointer-asserted filter types are implemented by the pointer type only (= C10.R10)"},
+			{ID: "C07.R13", Floor: 1, Run: deactivateOnlyOnRetire, Text: "a table is marked inactive only by the retiring method (which also removes it from the target map and pushes its slot to the free list)"},
+			{ID: "C07.R14", Floor: 1, Run: cacheEntryMoves, Text: "moving cache entries keeps the id → position map exact: no bulk copy inside Cache.filters; after the removed id was deleted, the map is written only where the moved entry differs from the removed one (idx != last)"},
 		},
 	})
 }
